@@ -3,6 +3,7 @@ import os
 from vlib.unit import Builder, Target, VERIF, scan_assumes
 from vlib.runner import Proof
 from vlib import ctx
+from vlib.configure import REPO
 from profile import profile
 
 STUN = 'src/base/QXmppStun.cpp'
@@ -15,6 +16,8 @@ HOOKS = [
      'emit': 'gh_saw_mi = true; gh_mi_done = done; gh_mi_complete = (integrity.vlen == 20);'},
     {'id': 'fp_checked', 'fn': 'QXmppStunMessage_decode', 'after': r'^\s*quint32 expected = ',
      'emit': 'gh_saw_fp = true; gh_fp_done = done; gh_fp_value = fingerprint;'},
+    {'id': 'crc_spec_init', 'fn': 'generateCrc32', 'after': r'^\s*quint32 result = ', 'emit': 'gh_spec_crc = 0xffffffffu;'},
+    {'id': 'crc_spec_step', 'fn': 'generateCrc32', 'before': r'^\s*\(result = ', 'emit': 'gh_spec_crc = crc_spec_step(gh_spec_crc, n);'},
 ]
 
 
@@ -22,36 +25,135 @@ def rd(name):
     return open(os.path.join(HERE, name)).read()
 
 
+def labelled(p, cname, sp):
+    p.labels = {'post': {cname: sp.labels}, 'inv': {cname: sp.inv_labels.get(0, [])}}
+    p.expect_post = len(sp.labels)
+    return p
+
+
 def build(work, tier):
     prof = profile()
     prof.hooks = HOOKS
     b = Builder('C14', work, prof)
     proofs = []
-    # ---------------------------------------------------------------- decode
-    sp = b.spec('decode.spec')
-    txt = b.lower(Target(STUN, 'QXmppStunMessage', 'decode', 'QXmppStunMessage_decode', this='QXmppStunMessage'), sp)
-    rec, fields = ctx.emit_record(os.path.join('/repo', STUN) if False else b_path(STUN), 'QXmppStunMessage', 'QXmppStunMessage', 'QXmppStunMessage', prof)
-    c = '#include "bytes.h"\n#include "misc.h"\n' + b.context() + '\n' + rec + '\n' + rd('ghost.h') + rd('callees_decode.h') + txt + '''
+    # ---------------------------------------------------------------- lower every target with its own contract
+    sp_decode = b.spec('decode.spec')
+    t_decode = b.lower(Target(STUN, 'QXmppStunMessage', 'decode', 'QXmppStunMessage_decode', this='QXmppStunMessage'), sp_decode)
+    sp_da = b.spec('decodeAddress.spec')
+    t_da = b.lower(Target(STUN, 'decodeAddress', 'decodeAddress', 'decodeAddress'), sp_da)
+    sp_sbl = b.spec('setBodyLength.spec')
+    t_sbl = b.lower(Target(STUN, 'setBodyLength', 'setBodyLength', 'setBodyLength'), sp_sbl)
+    sp_peek = b.spec('peekType.spec')
+    t_peek = b.lower(Target(STUN, 'QXmppStunMessage', 'peekType', 'QXmppStunMessage_peekType'), sp_peek)
+    sp_crc = b.spec('crc.spec')
+    t_crc = b.lower(Target(UTILS, 'QXmppUtils::generateCrc32', 'generateCrc32', 'generateCrc32'), sp_crc)
+    sp_hmac = b.spec('hmac.spec')
+    t_hmac = b.lower(Target(UTILS, 'generateHmac', 'generateHmac', 'generateHmac'), sp_hmac)
+    b.need_enums.setdefault((os.path.join(REPO, UTILS), ()), {}).setdefault('QCryptographicHash::Algorithm', set()).update({'Md5', 'Sha1'})
+    rec, fields = ctx.emit_record(os.path.join(REPO, STUN), 'QXmppStunMessage', 'QXmppStunMessage', 'QXmppStunMessage', prof)
+    context = b.context()
+    inc = [QT]
+    # ---------------------------------------------------------------- decode (callees by contract)
+    callee_protos = b.prototype(t_da) + b.prototype(t_sbl)     # the very contracts these functions are verified against below
+    c = '#include "bytes.h"\n#include "misc.h"\n' + context + '\n' + rec + '\n' + rd('ghost.h') + rd('da_spec.h') + callee_protos + rd('callees_decode.h') + t_decode + '''
 void h_decode(void) { QXmppStunMessage *self; const QByteArray *buffer; const QByteArray *key; QStringList *errors; QXmppStunMessage_decode(self, buffer, key, errors); }
 '''
     f = b.write('decode.c', c)
     p = Proof('decode', f, 'h_decode', enforce='QXmppStunMessage_decode',
               replace=['decodeAddress', 'setBodyLength', 'generateHmacSha1', 'generateCrc32', 'QByteArray_ne', 'QString_fromUtf8'],
-              expect_loops=1, include_dirs=[QT], timeout=1500,
+              expect_loops=1, include_dirs=inc, timeout=2400,
               note='every buffer of 0..65556 bytes, every key of 0..1024 bytes; attribute loop closed by loop contract')
-    p.labels = {'post': {'QXmppStunMessage_decode': sp.labels}, 'inv': {'QXmppStunMessage_decode': sp.inv_labels.get(0, [])}}
-    p.expect_post = len(sp.labels)
-    proofs.append(p)
+    proofs.append(labelled(p, 'QXmppStunMessage_decode', sp_decode))
+    alltext = c
+    # ---------------------------------------------------------------- decodeAddress
+    c = '#define QBA_OWNED 40\n#include "bytes.h"\n#include "misc.h"\n' + context + '\n' + rd('da_spec.h') + t_da + '''
+void h_decodeAddress(void) {
+  int n; __CPROVER_assume(0 <= n && n <= QBA_MAX); char *store = malloc(n); __CPROVER_assume(store != 0);
+  QByteArray buf; QByteArray_ctor(&buf); buf.n = n; buf.vlen = n; buf.src = store;
+  int xn; __CPROVER_assume(0 <= xn && xn <= 32); char xs[32]; QByteArray xid; QByteArray_ctor(&xid); xid.n = xn; xid.vlen = xn; xid.src = xs;
+  QDataStream st; QDataStream_ctor_ro(&st, &buf); int pos; __CPROVER_assume(0 <= pos && pos <= n); st.pos = pos;
+  QHostAddress addr; quint16 port; quint16 a_length;
+  decodeAddress(&st, a_length, &addr, &port, &xid);
+}
+'''
+    f = b.write('decodeAddress.c', c)
+    p = Proof('decodeAddress', f, 'h_decodeAddress', enforce='decodeAddress', kind='complete', loop_contracts=False, unwind=17, include_dirs=inc, timeout=900,
+              note='every buffer/position/attribute length, transaction id of 0..32 bytes; the 16-iteration XOR loop fully unwound (unwinding assertion on)')
+    proofs.append(labelled(p, 'decodeAddress', sp_da))
+    alltext += c
+    # ---------------------------------------------------------------- setBodyLength
+    c = '#include "bytes.h"\n' + context + '\n' + t_sbl + '''
+void h_setBodyLength(void) { QByteArray b; qint16 len; setBodyLength(&b, len); }
+'''
+    f = b.write('setBodyLength.c', c)
+    p = Proof('setBodyLength', f, 'h_setBodyLength', enforce='setBodyLength', kind='complete', loop_contracts=False, include_dirs=inc, timeout=300)
+    proofs.append(labelled(p, 'setBodyLength', sp_sbl))
+    # ---------------------------------------------------------------- peekType
+    c = '#include "bytes.h"\n' + context + '\n' + t_peek + '''
+void h_peekType(void) {
+  int n; __CPROVER_assume(0 <= n && n <= QBA_MAX); char *store = malloc(n); __CPROVER_assume(store != 0);
+  QByteArray buf; QByteArray_ctor(&buf); buf.n = n; buf.vlen = n; buf.src = store;
+  quint32 cookie; QByteArray id; QByteArray_ctor(&id); int idn; __CPROVER_assume(0 <= idn && idn <= 64); id.n = idn;
+  QXmppStunMessage_peekType(&buf, &cookie, &id);
+}
+'''
+    f = b.write('peekType.c', c)
+    p = Proof('peekType', f, 'h_peekType', enforce='QXmppStunMessage_peekType', kind='complete', loop_contracts=False, include_dirs=inc, timeout=300)
+    proofs.append(labelled(p, 'QXmppStunMessage_peekType', sp_peek))
+    # ---------------------------------------------------------------- CRC-32
+    c = '#include "bytes.h"\n' + rd('crc_spec.h') + context + '\n' + t_crc + '\nvoid h_crc(void) { const QByteArray *in; generateCrc32(in); }\n'
+    f = b.write('crc.c', c)
+    p = Proof('generateCrc32', f, 'h_crc', enforce='generateCrc32', expect_loops=1, include_dirs=inc, timeout=600,
+              note='table-driven loop equals the bitwise CRC-32 definition for inputs of every length (loop contract)')
+    proofs.append(labelled(p, 'generateCrc32', sp_crc))
+    alltext += c
+    # ---------------------------------------------------------------- HMAC (RFC 2104) against the hash oracle
+    c = '#define QBA_OWNED 96\n#define FINDING_SPLIT 1\n#include "bytes.h"\n' + context + '\n' + rd('hmac_spec.h') + t_hmac + \
+        '\nvoid h_hmac(void) { QByteArray *r; int alg; const QByteArray *k; const QByteArray *t; generateHmac(r, alg, k, t); }\n'
+    f = b.write('hmac.c', c)
+    p = Proof('generateHmac', f, 'h_hmac', enforce='generateHmac', kind='complete', loop_contracts=False, unwind=66, include_dirs=inc, timeout=900,
+              note='keys of every length 0..65556 (RFC 2104 incl. keys longer than the block), MD5 and SHA-1; the two 64-iteration pad loops fully unwound')
+    proofs.append(labelled(p, 'generateHmac', sp_hmac))
+    alltext += c
     return {
         'proofs': proofs, 'functions': b.functions, 'dropped': b.dropped, 'fired': b.fired, 'hooks': [h['id'] + ': ' + h['emit'] for h in HOOKS],
-        'assumed': ['A-QDATASTREAM (qtmodel/bytes.h)', 'A-QBYTEARRAY (qtmodel/bytes.h)', 'A-QBYTEARRAY-EQ operator!= exact at witness byte',
-                    'A-UTF8 fromUtf8 returns some string', 'A-CRYPTO SHA-1/MD5 are Qt\'s (HMAC is an oracle recording its arguments)'],
-        'assumes': scan_assumes(c),
-        'not_covered': ['SHA-1 / MD5 themselves (Qt)', 'a MESSAGE-INTEGRITY attribute truncated by the end of the packet is compared with its missing bytes read as zero (observed, no claim)'],
+        'assumed': ['A-QDATASTREAM (qtmodel/bytes.h): big-endian; reads past the end yield 0 and consume the rest; raw reads are short',
+                    'A-QBYTEARRAY (qtmodel/bytes.h): slice / zero-tail / owned-small-array model of QByteArray, QByteRef reads 0 beyond the size',
+                    'A-QBYTEARRAY-EQ operator!= exact at the witness byte', 'A-UTF8 fromUtf8 returns some string',
+                    'A-CRYPTO QCryptographicHash computes MD5 / SHA-1 (hash oracle logging its inputs, units/C14/hmac_spec.h)',
+                    'decode uses generateHmacSha1 / generateCrc32 as functions of their (recorded) arguments; generateHmacSha1 = generateHmac(Sha1, ..) is a one-line forwarder (not lowered)'],
+        'assumes': scan_assumes(alltext),
+        'not_covered': ['SHA-1 / MD5 themselves (Qt)', 'QXmppStunMessage::encode and the attribute-by-attribute round-trip lemma (not built yet)',
+                        'a MESSAGE-INTEGRITY attribute truncated by the end of the packet is compared with its missing bytes read as zero (observed, no claim)'],
         'trusted_base': [],
     }
 
 
-def b_path(rel):
-    from vlib.configure import REPO
-    return os.path.join(REPO, rel)
+# ---------------------------------------------------------------------------------------------------------------------
+# from a failed obligation to a concrete input replayed on the real library (DESIGN 3.3 / 3.4)
+def _trace_value(o, lhs_suffix):
+    for st in reversed(o.get('trace') or []):
+        if (st.get('lhs') or '').endswith(lhs_suffix):
+            return st.get('value')
+    return None
+
+
+def find_input(unit, proof, ob, label, work):
+    from vlib import native
+    if proof.id == 'generateHmac':
+        lens = ['0', '20', '64', '65', '100', '200']
+        rc, out = native.run_driver(os.path.join(HERE, 'replay_hmac.cpp'), lens)
+        return {'inputs': {'driver': 'units/C14/replay_hmac.cpp', 'args': lens, 'meaning': 'key lengths; text = RFC 2202 test case 2 text'},
+                'native_output': out, 'reproduced': rc != 0}
+    if proof.id == 'generateCrc32':
+        rc, out = native.run_driver(os.path.join(HERE, 'replay_crc.cpp'), [str(int(os.environ.get('VERIF_SEED', '1') or 1))])
+        return {'inputs': {'driver': 'units/C14/replay_crc.cpp', 'args': ['seed'], 'meaning': 'all 1-byte inputs, then 2000 pseudo-random strings'},
+                'native_output': out, 'reproduced': rc != 0}
+    return None
+
+
+def native_replay(rp):
+    from vlib import native
+    inp = rp['inputs']
+    rc, out = native.run_driver(os.path.join(VERIF, inp['driver']), [a if a != 'seed' else '1' for a in inp['args']])
+    return rc != 0, out
